@@ -18,8 +18,8 @@ type c12Msg struct {
 	PLen  int    `json:"p"`
 	ALen  int    `json:"a"`
 	Seed  uint64 `json:"s"`
-	Alias int    `json:"alias"` // seal: 0 nil dst, 1 in place, 2 append into live buffer, 3 ad and pt share a backing array
-	OAlias int   `json:"oalias"` // open: 0 nil dst, 1 in place, 2 append into live buffer
+	Alias int    `json:"alias"` // seal: 0 nil dst, 1 in place, 2 append into live buffer, 3 ad and pt share a backing array, 4 in place behind a live prefix, 5 same and the prefix is the associated data
+	OAlias int   `json:"oalias"` // open: 0 nil dst, 1 in place, 2 append into live buffer, 3 in place behind a live prefix, 4 same and the prefix is the associated data
 }
 
 type c12Tamper struct {
@@ -27,6 +27,10 @@ type c12Tamper struct {
 	Region int `json:"r"` // 0 ciphertext body, 1 tag, 2 associated data
 	Bit    int `json:"b"` // bit index modulo the region size
 	Kind   int `json:"k"` // 0 flip one bit, 1 truncate by 1..3 bytes, 2 extend by one byte
+	// Layout is the buffer layout in which the forged message is presented to Open: 0 nil dst, 1 appended behind a
+	// live prefix into spare capacity, 2 in place behind a live prefix (dst = pkt[:hdr], ciphertext = pkt[hdr:]),
+	// 3 same and the prefix is the associated data (the packet header)
+	Layout int `json:"l,omitempty"`
 }
 
 type c12Case struct {
@@ -41,6 +45,96 @@ func c12Clone(a interface{ Overhead() int }) *sanse {
 	return &cp
 }
 
+func c12Dup(b []byte) []byte { return append([]byte(nil), b...) }
+
+// c12OpenForged presents a message that must be rejected to Open in the given
+// buffer layout. It reports whether Open accepted it and, if it did not, which
+// caller-owned bytes outside the area Open may write were modified ("" = none).
+//
+// Grounding: cipher.AEAD.Open *appends* to dst and "even if the function fails,
+// the contents of dst, up to its capacity, may be overwritten" - that is the
+// spare capacity dst[len(dst):cap(dst)], which is therefore never inspected
+// here. Everything else belongs to the caller (C12: "never corrupts caller
+// buffers that overlap its arguments"): the live bytes dst[:len(dst)], the
+// associated data, a ciphertext that does not share the spare capacity, and
+// whatever follows the capacity in the same array. Layout 3 is the record
+// idiom of crypto/tls (the header is the live prefix of dst and the
+// associated data; it never overlaps the area written).
+func c12OpenForged(o *sanse, layout int, ct, ad []byte) (accepted bool, n int, damaged string) {
+	const pat, guard = 0xE0, 0x3C
+	var p []byte
+	var err error
+	switch layout {
+	case 1:
+		pre, room := 11, len(ct)
+		buf := make([]byte, pre+room+8)
+		for j := range buf {
+			buf[j] = guard
+		}
+		for j := 0; j < pre; j++ {
+			buf[j] = byte(pat + j)
+		}
+		ctc, adc := c12Dup(ct), c12Dup(ad)
+		p, err = o.Open(buf[:pre:pre+room], nil, ctc, adc)
+		for j := 0; j < pre; j++ {
+			if buf[j] != byte(pat+j) {
+				damaged = "dst-prefix"
+			}
+		}
+		for _, x := range buf[pre+room:] {
+			if x != guard && damaged == "" {
+				damaged = "beyond-dst-capacity"
+			}
+		}
+		if damaged == "" && !bytes.Equal(adc, ad) {
+			damaged = "associated-data"
+		}
+		if damaged == "" && !bytes.Equal(ctc, ct) {
+			damaged = "ciphertext"
+		}
+	case 2, 3:
+		hdr := make([]byte, 9)
+		for j := range hdr {
+			hdr[j] = byte(pat + j)
+		}
+		adc := c12Dup(ad)
+		if layout == 3 {
+			hdr = c12Dup(ad)
+		}
+		pre := len(hdr)
+		buf := make([]byte, pre+len(ct)+8)
+		copy(buf, hdr)
+		copy(buf[pre:], ct)
+		for j := pre + len(ct); j < len(buf); j++ {
+			buf[j] = guard
+		}
+		if layout == 3 {
+			adc = buf[:pre]
+		}
+		p, err = o.Open(buf[:pre:pre+len(ct)], nil, buf[pre:pre+len(ct)], adc)
+		if !bytes.Equal(buf[:pre], hdr) {
+			damaged = "dst-prefix"
+		}
+		for _, x := range buf[pre+len(ct):] {
+			if x != guard && damaged == "" {
+				damaged = "beyond-dst-capacity"
+			}
+		}
+		if damaged == "" && !bytes.Equal(adc, ad) {
+			damaged = "associated-data"
+		}
+	default:
+		ctc, adc := c12Dup(ct), c12Dup(ad)
+		p, err = o.Open(nil, nil, ctc, adc)
+		if !bytes.Equal(adc, ad) {
+			damaged = "associated-data"
+		} else if !bytes.Equal(ctc, ct) {
+			damaged = "ciphertext"
+		}
+	}
+	return err == nil, len(p), damaged
+}
+
 func c12Run(c c12Case, v *vlib.Verdict) {
 	key := vlib.Fill(c.KeySeed, c.KeyLen)
 	sealerI, err := NewSANSE(key)
@@ -53,6 +147,7 @@ func c12Run(c c12Case, v *vlib.Verdict) {
 	rs := &ref.Sanse{Key: key}
 	crossesBlock := false
 	aliased := false
+	rejectedInLayout := false
 	for i, m := range c.Msgs {
 		pt := vlib.Fill(m.Seed, m.PLen)
 		ad := vlib.Fill(m.Seed+1, m.ALen)
@@ -72,7 +167,12 @@ func c12Run(c c12Case, v *vlib.Verdict) {
 			for j := range guard {
 				guard[j] = 0xA5
 			}
-			got = sealer.Seal(buf[:0], nil, buf, ad)
+			adc := c12Dup(ad)
+			got = sealer.Seal(buf[:0], nil, buf, adc)
+			if !bytes.Equal(adc, ad) {
+				v.Failf("C12:seal-modified-input", "msg %d: in-place Seal modified its associated-data argument", i)
+				return
+			}
 			for j := range guard {
 				if guard[j] != 0xA5 {
 					v.Failf("C12:seal-wrote-outside-result", "msg %d: in-place Seal modified byte %d past the returned slice", i, j)
@@ -86,7 +186,12 @@ func c12Run(c c12Case, v *vlib.Verdict) {
 			for j := range buf {
 				buf[j] = 0x5A
 			}
-			out := sealer.Seal(buf[:pre], nil, pt, ad)
+			ptc, adc := c12Dup(pt), c12Dup(ad)
+			out := sealer.Seal(buf[:pre], nil, ptc, adc)
+			if !bytes.Equal(ptc, pt) || !bytes.Equal(adc, ad) {
+				v.Failf("C12:seal-modified-input", "msg %d: Seal (appending into a live buffer) modified its plaintext/associated-data arguments", i)
+				return
+			}
 			if len(out) != pre+m.PLen+TagSize {
 				v.Failf("C12:seal-length", "msg %d: Seal returned %d bytes, want %d", i, len(out), pre+m.PLen+TagSize)
 				return
@@ -106,28 +211,41 @@ func c12Run(c c12Case, v *vlib.Verdict) {
 				}
 			}
 			got = out[pre:]
-		case 4: // in place behind a live prefix: dst = pkt[:hdr], plaintext = pkt[hdr:hdr+n] (the overlap cipher.AEAD permits)
+		case 4, 5: // in place behind a live prefix: dst = pkt[:hdr], plaintext = pkt[hdr:hdr+n] (the overlap cipher.AEAD permits)
+			// 5: the prefix is the associated data as well (record idiom of crypto/tls:
+			// Seal(rec[:hdr], nonce, rec[hdr:], rec[:hdr]); the header is never in the area written)
 			aliased = true
-			pre := 12
-			buf := make([]byte, pre+m.PLen, pre+m.PLen+TagSize+6)
-			for j := 0; j < pre; j++ {
-				buf[j] = byte(0xC0 + j)
+			hdr := make([]byte, 12)
+			for j := range hdr {
+				hdr[j] = byte(0xC0 + j)
 			}
+			if m.Alias == 5 {
+				hdr = c12Dup(ad)
+			}
+			pre := len(hdr)
+			buf := make([]byte, pre+m.PLen, pre+m.PLen+TagSize+6)
+			copy(buf, hdr)
 			copy(buf[pre:], pt)
 			guard := buf[:cap(buf)][pre+m.PLen+TagSize:]
 			for j := range guard {
 				guard[j] = 0xA5
 			}
-			out := sealer.Seal(buf[:pre], nil, buf[pre:pre+m.PLen], ad)
+			adc := c12Dup(ad)
+			if m.Alias == 5 {
+				adc = buf[:pre]
+			}
+			out := sealer.Seal(buf[:pre], nil, buf[pre:pre+m.PLen], adc)
 			if len(out) != pre+m.PLen+TagSize {
 				v.Failf("C12:seal-length", "msg %d: Seal returned %d bytes, want %d", i, len(out), pre+m.PLen+TagSize)
 				return
 			}
-			for j := 0; j < pre; j++ {
-				if out[j] != byte(0xC0+j) {
-					v.Failf("C12:seal-clobbered-prefix", "msg %d: in-place Seal behind a prefix modified prefix byte %d", i, j)
-					return
-				}
+			if !bytes.Equal(out[:pre], hdr) || !bytes.Equal(buf[:pre], hdr) {
+				v.Failf("C12:seal-clobbered-prefix", "msg %d: in-place Seal behind a prefix modified the prefix (alias %d)", i, m.Alias)
+				return
+			}
+			if !bytes.Equal(adc, ad) {
+				v.Failf("C12:seal-modified-input", "msg %d: in-place Seal behind a prefix modified its associated-data argument", i)
+				return
 			}
 			for j := range guard {
 				if guard[j] != 0xA5 {
@@ -206,39 +324,54 @@ func c12Run(c c12Case, v *vlib.Verdict) {
 				}
 			}
 			cl := c12Clone(opener)
-			if p, err := cl.Open(nil, nil, ct, tad); err == nil {
-				v.Failf("C12:tamper-accepted:"+region, "msg %d (p %d, a %d): Open accepted a message with altered %s (bit %d), returned %d bytes", i, m.PLen, m.ALen, region, tm.Bit, len(p))
+			accepted, n, damaged := c12OpenForged(cl, tm.Layout, ct, tad)
+			if accepted {
+				v.Failf("C12:tamper-accepted:"+region, "msg %d (p %d, a %d): Open accepted a message with altered %s (bit %d, layout %d), returned %d bytes", i, m.PLen, m.ALen, region, tm.Bit, tm.Layout, n)
 				return
 			}
+			if damaged != "" {
+				v.Failf("C12:failed-open-modified-caller-bytes:"+damaged, "msg %d (p %d, a %d): Open rejected a message with altered %s but modified the caller's %s (layout %d); only the spare capacity of dst may be written", i, m.PLen, m.ALen, region, damaged, tm.Layout)
+				return
+			}
+			if tm.Layout != 0 {
+				rejectedInLayout = true
+			}
 		}
-		// ---- genuine open in the requested layout
+		// ---- genuine open in the requested layout (the associated data is handed over as a copy and compared afterwards)
 		var opened []byte
 		var oerr error
+		adc := c12Dup(ad)
 		switch m.OAlias {
 		case 1:
 			aliased = true
 			buf := append([]byte(nil), got...)
-			opened, oerr = opener.Open(buf[:0], nil, buf, ad)
-		case 3: // in place behind a live prefix: dst = pkt[:hdr], ciphertext = pkt[hdr:]
+			opened, oerr = opener.Open(buf[:0], nil, buf, adc)
+		case 3, 4: // in place behind a live prefix: dst = pkt[:hdr], ciphertext = pkt[hdr:]; 4: the prefix is the associated data
 			aliased = true
-			pre := 9
-			buf := make([]byte, pre+len(got))
-			for j := 0; j < pre; j++ {
-				buf[j] = byte(0xD0 + j)
+			hdr := make([]byte, 9)
+			for j := range hdr {
+				hdr[j] = byte(0xD0 + j)
 			}
+			if m.OAlias == 4 {
+				hdr = c12Dup(ad)
+			}
+			pre := len(hdr)
+			buf := make([]byte, pre+len(got))
+			copy(buf, hdr)
 			copy(buf[pre:], got)
+			if m.OAlias == 4 {
+				adc = buf[:pre]
+			}
 			var out []byte
-			out, oerr = opener.Open(buf[:pre], nil, buf[pre:], ad)
+			out, oerr = opener.Open(buf[:pre], nil, buf[pre:], adc)
 			if oerr == nil {
 				if len(out) != pre+m.PLen {
 					v.Failf("C12:open-length", "msg %d: Open returned %d bytes, want %d", i, len(out), pre+m.PLen)
 					return
 				}
-				for j := 0; j < pre; j++ {
-					if out[j] != byte(0xD0+j) {
-						v.Failf("C12:open-clobbered-prefix", "msg %d: in-place Open behind a prefix modified prefix byte %d", i, j)
-						return
-					}
+				if !bytes.Equal(out[:pre], hdr) || !bytes.Equal(buf[:pre], hdr) {
+					v.Failf("C12:open-clobbered-prefix", "msg %d: in-place Open behind a prefix modified the prefix (oalias %d)", i, m.OAlias)
+					return
 				}
 				opened = out[pre:]
 			}
@@ -251,9 +384,9 @@ func c12Run(c c12Case, v *vlib.Verdict) {
 			}
 			ctc := append([]byte(nil), got...)
 			var out []byte
-			out, oerr = opener.Open(buf[:pre], nil, ctc, ad)
+			out, oerr = opener.Open(buf[:pre], nil, ctc, adc)
 			if oerr == nil {
-				if len(out) != pre+m.PLen || !bytes.Equal(out[:pre], buf[:pre]) {
+				if len(out) != pre+m.PLen || !bytes.Equal(out[:pre], buf[:pre]) || !bytes.Equal(buf[:pre], []byte{0x3C, 0x3C, 0x3C, 0x3C, 0x3C}) {
 					v.Failf("C12:open-clobbered-prefix", "msg %d: Open damaged the dst prefix", i)
 					return
 				}
@@ -271,11 +404,15 @@ func c12Run(c c12Case, v *vlib.Verdict) {
 			}
 		default:
 			ctc := append([]byte(nil), got...)
-			opened, oerr = opener.Open(nil, nil, ctc, ad)
+			opened, oerr = opener.Open(nil, nil, ctc, adc)
 			if !bytes.Equal(ctc, got) {
 				v.Failf("C12:open-modified-input", "msg %d: Open modified its ciphertext argument", i)
 				return
 			}
+		}
+		if !bytes.Equal(adc, ad) {
+			v.Failf("C12:open-modified-input", "msg %d: Open modified its associated-data argument (oalias %d)", i, m.OAlias)
+			return
 		}
 		if oerr != nil {
 			v.Failf("C12:open-rejects-genuine", "msg %d (keylen %d, p %d, a %d): Open failed on an unmodified message: %v", i, c.KeyLen, m.PLen, m.ALen, oerr)
@@ -298,6 +435,9 @@ func c12Run(c c12Case, v *vlib.Verdict) {
 	}
 	if len(c.Tampers) > 0 {
 		v.Label("with-tampering")
+	}
+	if rejectedInLayout {
+		v.Label("rejected-open-into-live-buffer")
 	}
 	v.Label("keylen:" + c12KeyClass(c.KeyLen))
 }
@@ -347,8 +487,8 @@ func c12Gen(rec *vlib.Recorder) func(t *rapid.T) c12Case {
 				PLen:   lenGen.Draw(t, "plen"),
 				ALen:   rapid.OneOf(rapid.SampledFrom(c12Lens), rapid.IntRange(0, 300)).Draw(t, "alen"),
 				Seed:   rapid.Uint64().Draw(t, "seed"),
-				Alias:  rapid.IntRange(0, 4).Draw(t, "alias"),
-				OAlias: rapid.IntRange(0, 3).Draw(t, "oalias"),
+				Alias:  rapid.IntRange(0, 5).Draw(t, "alias"),
+				OAlias: rapid.IntRange(0, 4).Draw(t, "oalias"),
 			}
 		}), 1, maxMsgs).Draw(t, "msgs")
 		c.Tampers = rapid.SliceOfN(rapid.Custom(func(t *rapid.T) c12Tamper {
@@ -357,6 +497,7 @@ func c12Gen(rec *vlib.Recorder) func(t *rapid.T) c12Case {
 				Region: rapid.IntRange(0, 2).Draw(t, "region"),
 				Bit:    rapid.OneOf(rapid.IntRange(0, 1<<20), rapid.SampledFrom([]int{0, 7, 8, 127, 128, 255, 1599, 1600})).Draw(t, "bit"),
 				Kind:   rapid.SampledFrom([]int{0, 0, 0, 0, 1, 2}).Draw(t, "kind"),
+				Layout: rapid.IntRange(0, 3).Draw(t, "layout"),
 			}
 		}), 0, 8).Draw(t, "tampers")
 		return c
@@ -394,16 +535,16 @@ func TestVerifC12TamperSweep(t *testing.T) {
 			}
 			c := c12Case{KeyLen: kl, KeySeed: uint64(idx), Msgs: []c12Msg{{PLen: sh[0], ALen: sh[1], Seed: uint64(idx) * 31}}}
 			for b := 0; b < 8*TagSize; b++ {
-				c.Tampers = append(c.Tampers, c12Tamper{Region: 1, Bit: b})
+				c.Tampers = append(c.Tampers, c12Tamper{Region: 1, Bit: b, Layout: b % 4})
 			}
 			for b := 0; b < 8*sh[0]; b++ {
-				c.Tampers = append(c.Tampers, c12Tamper{Region: 0, Bit: b})
+				c.Tampers = append(c.Tampers, c12Tamper{Region: 0, Bit: b, Layout: (b + 1) % 4})
 			}
 			for b := 0; b < 8*sh[1]; b++ {
-				c.Tampers = append(c.Tampers, c12Tamper{Region: 2, Bit: b})
+				c.Tampers = append(c.Tampers, c12Tamper{Region: 2, Bit: b, Layout: (b + 2) % 4})
 			}
 			for k := 0; k < 3; k++ {
-				c.Tampers = append(c.Tampers, c12Tamper{Kind: 1, Bit: k}, c12Tamper{Kind: 2, Bit: k})
+				c.Tampers = append(c.Tampers, c12Tamper{Kind: 1, Bit: k, Layout: k + 1}, c12Tamper{Kind: 2, Bit: k, Layout: k + 1})
 			}
 			var v vlib.Verdict
 			c12Guarded(c, &v)
